@@ -84,13 +84,26 @@ func (g *Gen) baseImage(maxGroups int, spare int) (*Op, map[uint32][]uint32) {
 	ng := 1 + r.Intn(maxGroups)
 	groups := map[uint32][]uint32{}
 	var dis []DI
-	id := uint32(1)
+	var gids []uint32
 	havePrim := false
+	// group numbers need not appear in ascending order in the table: the labels 1..ng are
+	// permuted half of the time, and a third of the time members of different groups interleave
+	label := make([]uint32, ng+1)
+	for gi := 1; gi <= ng; gi++ {
+		label[gi] = uint32(gi)
+	}
+	if ng > 1 && r.Chance(1, 2) {
+		for i := ng; i > 1; i-- {
+			j := 1 + r.Intn(i)
+			label[i], label[j] = label[j], label[i]
+		}
+		g.count("base:group-labels-permuted")
+	}
 	for gi := 1; gi <= ng; gi++ {
 		no := 1 + r.Intn(5)
 		for k := 0; k < no; k++ {
 			di := DI{DT: pick(r, mdTypes), Fail: -1, Data: DataSpec{Lit: r.Bytes(pick(r, []int{0, 1, 3, 17, 64, 200}))}}
-			di.Opts = append(di.Opts, DIOpt{Kind: "group", N: uint32(gi)})
+			di.Opts = append(di.Opts, DIOpt{Kind: "group", N: label[gi]})
 			if r.Chance(1, 2) {
 				di.Opts = append(di.Opts, DIOpt{Kind: "name", B: []byte(fmt.Sprintf("obj-%d-%d", gi, k))})
 			}
@@ -114,9 +127,19 @@ func (g *Gen) baseImage(maxGroups int, spare int) (*Op, map[uint32][]uint32) {
 				g.count("base:duplicate-content")
 			}
 			dis = append(dis, di)
-			groups[uint32(gi)] = append(groups[uint32(gi)], id)
-			id++
+			gids = append(gids, label[gi])
 		}
+	}
+	if ng > 1 && r.Chance(1, 3) {
+		for i := len(dis) - 1; i > 0; i-- {
+			j := r.Intn(i + 1)
+			dis[i], dis[j] = dis[j], dis[i]
+			gids[i], gids[j] = gids[j], gids[i]
+		}
+		g.count("base:groups-interleaved")
+	}
+	for i, gid := range gids {
+		groups[gid] = append(groups[gid], uint32(i+1))
 	}
 	op := &Op{Kind: "create", Backend: "buf", COpts: []CreateOpt{{Kind: "cap", I: int64(len(dis) + spare)}}}
 	if r.Chance(2, 3) {
@@ -129,6 +152,44 @@ func (g *Gen) baseImage(maxGroups int, spare int) (*Op, map[uint32][]uint32) {
 	}
 	op.COpts = append(op.COpts, CreateOpt{Kind: "descs", DIs: dis})
 	return op, groups
+}
+
+// swapSlotsOp: exchange two used descriptor-table slots byte for byte and load the result — the
+// same objects, IDs, groups and contents (the same protected view), only their table positions
+// differ (an image another writer, or a re-packing tool, could have produced).
+func (g *Gen) swapSlotsOp(groups map[uint32][]uint32) *Op {
+	r := g.r
+	gs := sortedGroups(groups)
+	var cand []uint32
+	for _, gid := range gs {
+		if len(groups[gid]) > 1 {
+			cand = append(cand, gid)
+		}
+	}
+	var a, b uint32
+	if len(cand) > 0 && r.Chance(3, 4) {
+		// inside one group, preferably moving its lowest ID away from the front
+		ids := groups[pick(r, cand)]
+		a = ids[0]
+		if r.Chance(1, 3) {
+			a = pick(r, ids)
+		}
+		for b = pick(r, ids); b == a; b = pick(r, ids) {
+		}
+	} else {
+		var all []uint32
+		for _, gid := range gs {
+			all = append(all, groups[gid]...)
+		}
+		if len(all) < 2 {
+			return nil
+		}
+		a = pick(r, all)
+		for b = pick(r, all); b == a; b = pick(r, all) {
+		}
+	}
+	g.count("relocate:swap-table-slots")
+	return &Op{Kind: "patch", SwapSlots: []int{int(a) - 1, int(b) - 1}}
 }
 
 func (g *Gen) signKeys() SOpts {
@@ -351,16 +412,35 @@ func scenC06(g *Gen, dir string) ([]*Op, func(e *Env, i int, op *Op, obs []strin
 	var s SOpts
 	var v VOpts
 	var covered []uint32
+	relocated := false
 	if groups == nil {
 		s = g.signKeys()
 		v = trustFor(s.keyList())
 	} else {
+		if r.Chance(1, 4) {
+			// the image to be signed was laid out by another writer: same objects, other slots
+			if sw := g.swapSlotsOp(groups); sw != nil {
+				ops = append(ops, sw)
+				relocated = true
+				g.count("pre:relocated")
+			}
+		}
 		s, v, covered = g.selection(groups)
 	}
 	signIdx := len(ops)
-	ops = append(ops, &Op{Kind: "sign", S: s}, factsOp(), obsOp())
+	ops = append(ops, &Op{Kind: "sign", S: s}, factsOp(), &Op{Kind: "obs", Inv: !relocated})
 	verIdx := len(ops)
 	ops = append(ops, &Op{Kind: "verify", V: v})
+	ver5 := -1
+	if groups != nil && r.Chance(1, 3) {
+		// another image presenting the same protected view: two objects exchange table slots
+		if sw := g.swapSlotsOp(groups); sw != nil {
+			ops = append(ops, sw, factsOp())
+			ver5 = len(ops)
+			ops = append(ops, &Op{Kind: "verify", V: v})
+			g.count("post:relocated")
+		}
+	}
 	// after reloading the file
 	ops = append(ops, &Op{Kind: "reload"}, factsOp())
 	ver2 := len(ops)
@@ -414,12 +494,13 @@ func scenC06(g *Gen, dir string) ([]*Op, func(e *Env, i int, op *Op, obs []strin
 				return &Violation{Prop: "C06", Key: "C06:sign-shape", What: bad, Op: i}
 			}
 		}
-		if i == verIdx || i == ver2 || i == ver3 || i == ver4 {
+		if i == verIdx || i == ver2 || i == ver3 || i == ver4 || i == ver5 {
 			if len(obs) == 0 || !strings.HasPrefix(obs[0], "v ok") {
-				where := map[int]string{verIdx: "on the signing handle", ver2: "after reload", ver3: "after co-signing", ver4: "after adding an object to another group"}[i]
+				where := map[int]string{verIdx: "on the signing handle", ver2: "after reload", ver3: "after co-signing", ver4: "after adding an object to another group",
+					ver5: "on an image with the same protected view whose objects occupy other table slots"}[i]
 				return &Violation{Prop: "C06", Key: "C06:verify-failed", What: "verification of what was signed failed " + where + ": " + strings.Join(obs, " / "), Op: i}
 			}
-			if covered != nil && (i == verIdx || i == ver2) {
+			if covered != nil && (i == verIdx || i == ver2 || i == ver5) {
 				want := append([]uint32{}, covered...)
 				sort.Slice(want, func(a, b int) bool { return want[a] < want[b] })
 				got := map[uint32]bool{}
@@ -474,7 +555,15 @@ func scenC05(g *Gen, dir string) ([]*Op, func(e *Env, i int, op *Op, obs []strin
 	}
 	nsig := uint32(len(gs))
 	total := int64(nobj) + 6
-	switch k := r.Intn(12); k {
+	switch k := r.Intn(13); k {
+	case 12:
+		// a new group whose only linked signature is of the other flavour (a legacy SIFHASH
+		// clear-signature, by any key): no current-format signature covers the group
+		edit = "add object in a new group carrying only a legacy-format signature"
+		data := r.Bytes(6)
+		ops = append(ops, &Op{Kind: "add", T: TOpt{Kind: "det"}, DI: DI{DT: 0x4007, Fail: -1, Data: DataSpec{Lit: data}, Opts: []DIOpt{{Kind: "group", N: 7}}}})
+		ent := r.Intn(len(getUniverse().PGP))
+		ops = append(ops, &Op{Kind: "add", T: TOpt{Kind: "det"}, DI: sigObjectDI(legacyBlob(ent, data, crypto.SHA256), 7, 0, 1, getUniverse().PGP[ent].PrimaryKey.Fingerprint, 0)})
 	case 11:
 		// a byte-for-byte copy of one member's descriptor over another member's slot: the group
 		// keeps its size and every in-use ID is a signed ID, but a signed object is gone
@@ -634,7 +723,7 @@ func scenC04(g *Gen, dir string) ([]*Op, func(e *Env, i int, op *Op, obs []strin
 	ops = append(ops, factsOp())
 	ver1 := len(ops)
 	ops = append(ops, &Op{Kind: "verify", V: v})
-	mode := r.Intn(10)
+	mode := r.Intn(11)
 	var orig protView
 	var verifiedIDs []uint32
 	check := func(e *Env, i int, op *Op, obs []string) *Violation {
@@ -656,6 +745,25 @@ func scenC04(g *Gen, dir string) ([]*Op, func(e *Env, i int, op *Op, obs []strin
 			now := protectedView(e.f)
 			if now.Launch != orig.Launch || now.Version != orig.Version || now.ID != orig.ID {
 				return &Violation{Prop: "C04", Key: "C04:header-change-verifies", What: "launch script / version / image ID changed and verification still succeeds", Op: i}
+			}
+			// no alteration changes a covered object and still verifies: an object that the same
+			// request reported verified before the edit, and that is still present under its ID,
+			// still carries the protected attributes and content of a signed object
+			for _, id := range verifiedIDs {
+				for _, n := range now.Objs[id] {
+					if n.DT == 0x4005 {
+						continue
+					}
+					same := false
+					for _, os := range orig.Objs {
+						for _, o := range os {
+							same = same || o.equal(n)
+						}
+					}
+					if !same {
+						return &Violation{Prop: "C04", Key: "C04:covered-object-changed-verifies", What: fmt.Sprintf("object %d was covered by the verified signatures; after the edit its protected attributes/content are those of no signed object, yet the same verification still succeeds", id), Op: i}
+					}
+				}
 			}
 			for _, l := range obs[1:] {
 				for _, x := range strings.Split(fieldOf(l, "verified"), ",") {
@@ -732,6 +840,26 @@ func fillPatch(g *Gen, op *Op, b []byte) {
 			op.Sites = []PatchSite{flip(r.Intn(128))}
 		}
 		g.count("tamper:data-bit")
+	case mode >= 10: // a bit in the first bytes of a signature object's data (armor header, SIFHASH prefix, JSON framing)
+		slot := r.Intn(total)
+		site := flip(r.Intn(128))
+		for k := 0; k < total; k++ {
+			o := 4096 + 585*((slot+k)%total)
+			if o+33 <= len(b) && b[o+4] != 0 && b[o] == 0x05 && b[o+1] == 0x40 {
+				doff := int(int64(b[o+17]) | int64(b[o+18])<<8 | int64(b[o+19])<<16 | int64(b[o+20])<<24)
+				dsz := int(int64(b[o+25]) | int64(b[o+26])<<8 | int64(b[o+27])<<16)
+				if dsz > 0 && doff+dsz <= len(b) {
+					n := 80
+					if dsz < n {
+						n = dsz
+					}
+					site = flip(doff + r.Intn(n))
+					break
+				}
+			}
+		}
+		op.Sites = []PatchSite{site}
+		g.count("tamper:signature-head-bit")
 	case mode < 9: // field rewrite from the catalogue
 		slot := r.Intn(total)
 		base := int64(4096 + 585*slot)
@@ -866,8 +994,16 @@ func scenC07(g *Gen, dir string) ([]*Op, func(e *Env, i int, op *Op, obs []strin
 		g.count("trust:none")
 	}
 	v := trustFor(dedupInts(trust))
-	if r.Chance(1, 2) {
+	switch r.Intn(3) {
+	case 0:
 		v.Groups = []uint32{1}
+	case 1:
+		// per-object verification of members of the signed group
+		v.Objects = []uint32{pick(r, groups[1])}
+		if r.Chance(1, 3) {
+			v.Objects = append(v.Objects, pick(r, groups[1]))
+		}
+		g.count("request:objects")
 	}
 	ops = append(ops, factsOp())
 	ver := len(ops)
@@ -991,7 +1127,34 @@ func scenC16(g *Gen, dir string) ([]*Op, func(e *Env, i int, op *Op, obs []strin
 		ht := pick(r, []crypto.Hash{crypto.SHA256, crypto.SHA384, crypto.SHA512})
 		htN := map[crypto.Hash]int64{crypto.SHA256: 1, crypto.SHA384: 2, crypto.SHA512: 3}[ht]
 		if r.Chance(2, 3) { // object-linked legacy signatures
+			// one object may instead carry only a linked signature object that is *not* a legacy
+			// signature: junk, a clear-signed message without the SIFHASH prefix, a damaged
+			// armor header, or a current-format DSSE envelope made by a trusted key
+			other := uint32(0)
+			if r.Chance(1, 3) {
+				other = uint32(1 + r.Intn(3))
+			}
 			for id := uint32(1); id <= 3; id++ {
+				if id == other {
+					lb := legacyBlob(ent, objData[id], ht)
+					var blob []byte
+					switch r.Intn(4) {
+					case 0:
+						blob = []byte("not a signature")
+						g.count("object-linked:junk")
+					case 1:
+						blob = bytes.Replace(lb, []byte("SIFHASH:"), []byte("RIFHASH:"), 1) // signature no longer valid either
+						g.count("object-linked:prefix-damaged")
+					case 2:
+						blob = bytes.Replace(lb, []byte("-----BEGIN PGP SIGNED"), []byte("-----BEGIN PGP SIGNFD"), 1)
+						g.count("object-linked:armor-damaged")
+					default:
+						blob = foreignPayloadBlob(100+r.Intn(len(u.DSSE)), mediaType, []byte(`{"version":1,"header":{"digest":"sha256:00"},"objects":[]}`))
+						g.count("object-linked:dsse-envelope")
+					}
+					ops = append(ops, &Op{Kind: "add", T: TOpt{Kind: "det"}, DI: sigObjectDI(blob, 0, id, htN, fp, 0)})
+					continue
+				}
 				if r.Chance(3, 4) {
 					ops = append(ops, &Op{Kind: "add", T: TOpt{Kind: "det"}, DI: sigObjectDI(legacyBlob(ent, objData[id], ht), 0, id, htN, fp, 0)})
 					legacyKinds["object"] = true
@@ -1022,7 +1185,7 @@ func scenC16(g *Gen, dir string) ([]*Op, func(e *Env, i int, op *Op, obs []strin
 	// optional tampering
 	tamper := r.Chance(1, 2)
 	if tamper {
-		ops = append(ops, &Op{Kind: "patch", Raw: []string{fmt.Sprint(r.Intn(10)), "6"}})
+		ops = append(ops, &Op{Kind: "patch", Raw: []string{fmt.Sprint(r.Intn(12)), "6"}})
 	}
 	ops = append(ops, factsOp())
 	// every verification mode
@@ -1070,6 +1233,45 @@ func scenC16(g *Gen, dir string) ([]*Op, func(e *Env, i int, op *Op, obs []strin
 		}
 		if !(m.Legacy || m.LegacyAll) && !hasCurrent {
 			return &Violation{Prop: "C16", Key: "C16:current-satisfied-by-legacy", What: "a non-legacy verification request succeeded on an image without current-format signatures", Op: i}
+		}
+		// legacy coverage: every object the request names must be reported verified by some
+		// signature (a task that looked at no signature at all proves nothing)
+		if m.Legacy || m.LegacyAll {
+			need := map[uint32]bool{}
+			e.f.WithDescriptors(func(d sif.Descriptor) bool {
+				if d.DataType() == sif.DataSignature {
+					return false
+				}
+				switch {
+				case len(m.Objects) > 0 || len(m.Groups) > 0:
+					for _, id := range m.Objects {
+						if d.ID() == id {
+							need[id] = true
+						}
+					}
+					for _, gid := range m.Groups {
+						if d.GroupID() == gid {
+							need[d.ID()] = true
+						}
+					}
+				default:
+					if d.GroupID() != 0 {
+						need[d.ID()] = true
+					}
+				}
+				return false
+			})
+			for _, l := range obs[1:] {
+				for _, x := range strings.Split(fieldOf(l, "verified"), ",") {
+					var id uint32
+					if _, err := fmt.Sscan(x, &id); err == nil {
+						delete(need, id)
+					}
+				}
+			}
+			for id := range need {
+				return &Violation{Prop: "C16", Key: "C16:legacy-uncovered-object", What: fmt.Sprintf("legacy verification (%s) succeeded although no signature was checked for object %d", m.String(), id), Op: i}
+			}
 		}
 		// legacy soundness: the content of the covered objects hashes to the digest in the
 		// clear-signed plaintext of the signature that was accepted (made by a trusted key)
@@ -1330,7 +1532,14 @@ func runInteg(prop, dir string, seed uint64) (*Case, []*Violation, map[string]in
 				cp.Sites = []PatchSite{{Off: int64(to), B: append([]byte(nil), b[from:from+585]...)}}
 			}
 		}
-		if cp.Kind == "patch" && len(cp.Sites) == 0 && e.f != nil {
+		if cp.Kind == "patch" && len(cp.Sites) == 0 && len(cp.SwapSlots) == 2 && e.f != nil {
+			b := e.storeBytes()
+			x, y := 4096+585*cp.SwapSlots[0], 4096+585*cp.SwapSlots[1]
+			if x+585 <= len(b) && y+585 <= len(b) {
+				cp.Sites = []PatchSite{{Off: int64(x), B: append([]byte(nil), b[y:y+585]...)}, {Off: int64(y), B: append([]byte(nil), b[x:x+585]...)}}
+			}
+		}
+		if cp.Kind == "patch" && len(cp.Sites) == 0 && len(cp.SwapSlots) == 0 && len(cp.CopySlot) == 0 && e.f != nil {
 			fillPatch(g, &cp, e.storeBytes())
 		}
 		obs := e.Apply(&cp)
